@@ -103,8 +103,26 @@ def make_case(seed, i, force_end=None):
             mine = sorted(p for p in cur if p.startswith("/w/pkg/dir"))
             if mine and r.chance(0.5):
                 p = r.choice(mine)
-                how = r.choice(["remove", "move_out", "save", "save"])
-                if how == "remove":
+                how = r.choice(["remove", "move_out", "save", "save", "add_file", "add_file", "remove_file"])
+                d_ = p.rsplit("/", 1)[0]
+                siblings = [q for q in mine if q.rsplit("/", 1)[0] == d_]
+                if how == "remove_file" and len(siblings) < 2:
+                    how = "add_file"
+                if how == "add_file":
+                    # one more model file in a sub-directory that exists already: only that directory's listing changes
+                    q = "%s/extra%d.yml" % (d_, e)
+                    cur[q] = "ZqDirExtra%d: !record\n  fields:\n    note: string\n" % e
+                    edits.append({"kind": "write" if r.chance(0.5) else "atomic", "path": q, "data": cur[q], "steps": r.randint(1, 2)})
+                    log.append("new file %s in an existing sub-directory" % q)
+                elif how == "remove_file":
+                    edits.append({"kind": "remove", "path": p})
+                    cur.pop(p)
+                    log.append("remove %s (its sub-directory stays)" % p)
+                elif how == "remove":
+                    for q in siblings:
+                        if q != p:
+                            edits.append({"kind": "remove", "path": q})
+                            cur.pop(q)
                     edits.append({"kind": "remove", "path": p})
                     edits.append({"kind": "remove", "path": p.rsplit("/", 1)[0]})
                     cur.pop(p)
@@ -114,7 +132,8 @@ def make_case(seed, i, force_end=None):
                     d = p.rsplit("/", 1)[0]
                     edits.append({"kind": "mkdir", "path": "/w/attic"})
                     edits.append({"kind": "rename", "path": d, "to": "/w/attic/" + d.rsplit("/", 1)[1] + "_%d" % e})
-                    cur.pop(p)
+                    for q in siblings:
+                        cur.pop(q, None)
                     log.append("move sub-directory %s out of the package" % d)
                 else:
                     cur[p] = cur[p] + "    more%d: string\n" % e
